@@ -76,6 +76,21 @@ fn main() {
                 }
             }
         }
+        "float-pow" => {
+            let files: Vec<String> = arg(&args, "--tables").expect("--tables").split(',').map(|s| s.to_string()).collect();
+            let samples: usize = arg(&args, "--samples").and_then(|x| x.parse().ok()).unwrap_or(5);
+            let seed: u64 = arg(&args, "--seed").and_then(|x| x.parse().ok()).unwrap_or(1);
+            let k: f64 = arg(&args, "--k").and_then(|x| x.parse().ok()).unwrap_or(64.0);
+            let cases = prog::pow_cases();
+            let r = float::load(&files).and_then(|t| prog::op_sweep(&t, &cases, samples, seed, k, arg(&args, "--types").as_deref()));
+            match r {
+                Ok(v) => println!("{v}"),
+                Err(e) => {
+                    eprintln!("tool error: {e}");
+                    std::process::exit(2);
+                }
+            }
+        }
         "float-prog" => {
             let files: Vec<String> = arg(&args, "--tables").expect("--tables").split(',').map(|s| s.to_string()).collect();
             let progs = arg(&args, "--programs").expect("--programs");
